@@ -67,6 +67,12 @@ def schema_programs():
     mn = {'n': 'm', 'args': [['i', ['c', 'Item', {}]], ['j', ['c', 'Item2', {}]], ['k', ['c', 'Item3', {}]]], 'ret': ['c', 'Item', {}]}
     out.append(('named-simple-types', {'tns': TNS, 'simples': simples, 'enums': {'Shade': ['light', 'dark']}, 'classes': [Item, Item2, Item3], 'services': [{'n': 'S', 'methods': [mn]}]},
                 [[Obj('Item', code='abc', n=1), Obj('Item2', c='x', s=50, l='y', ca='zz', a1=1, a2='dark', a3=7, a4=5), Obj('Item3', s=99, cs=['ab', 'cdefgh'])]]))
+    # one class used as the bare argument of a method (met first) and as the header of another one
+    Auth = {'n': 'Auth', 'fields': [['user', U], ['n', I]]}
+    login = {'n': 'm', 'args': [['a', ['c', 'Auth', {}]]], 'ret': U, 'kw': {'_body_style': 'bare'}}
+    mh = {'n': 'mh', 'args': [['n', I]], 'ret': U, 'in_header': ['Auth']}
+    out.append(('class-as-bare-argument-and-header', {'tns': TNS, 'classes': [Auth], 'services': [{'n': 'S', 'methods': [login, mh]}]},
+                [{'args': [Obj('Auth', user='u', n=1)], 'ret': 'x'}]))
     # two classes of different namespaces that have a member of the same name and the same class: a member element belongs
     # to the namespace of the class that contains it
     Pt = {'n': 'Point', 'ns': 'urn:vf:p', 'fields': [['x', I], ['y', I]]}
